@@ -380,6 +380,9 @@ func ReadProperties(rd io.Reader) (props []profile.Property, err error) {
 	if err != nil {
 		return
 	}
+	if size < 0 {
+		return nil, fmt.Errorf("got a negative-length properties array (%d)", size)
+	}
 	props = make([]profile.Property, 0, min(size, MaxPreAllocSize))
 	var name, value, signature string
 	for i := 0; i < size; i++ {
